@@ -328,7 +328,8 @@ fn summary_part(ctx: &Ctx, res: &mut PartResult, maxlen: usize) {
     let alpha = 0.0001f64;
     for (count, d) in [(3u32, 20u64), (1, 10), (2, 7)] {
         let w = count as u64 * d;
-        let mut times: Vec<u64> = vec![0, 1, d - 1, d, d + 1, w - d, w - 1, w, w + 1, 2 * w];
+        // incl. gaps whose length is k + 1/2 (and more) bucket durations, and snapshot times just inside / outside 2W
+        let mut times: Vec<u64> = vec![0, 1, d / 2, d - 1, d, d + 1, d + d / 2 + 1, w - d, w - 1, w, w + 1, w + d - 1, 2 * w - 1, 2 * w];
         times.sort();
         times.dedup();
         for base in [0u64, 10 * w] {
